@@ -185,7 +185,11 @@ RunRecord run_ampls_session(const sim::Json& sc) {
         g_script = rd["script"];
         g_dual_mode = (int)g_script["dual_mode"].as_int(0);
         if (rec.rc_load == 0) {
-          AMPLSSolve(slv);
+          // AMPLSSolve is a void pass-through to the backend: what the solver (or a solution check / an intermediate-solution
+          // write inside the solve) throws is the caller's to catch; such a round ends there
+          try { AMPLSSolve(slv); } catch (const std::exception& e) { r.solve_exc = e.what(); if (r.solve_exc.empty()) r.solve_exc = "?"; }
+        }
+        if (rec.rc_load == 0 && r.solve_exc.empty()) {
           std::string f = rd["solfile"].is_null() ? std::string() : subst(rd["solfile"].as_str());
           r.rc_report = AMPLSReportResults(slv, rd["solfile"].is_null() ? nullptr : f.c_str());
         }
